@@ -1013,6 +1013,14 @@ impl<T: Transport, Env: UtpEnvironment> VirtualSocket<T, Env> {
         }
 
         if result.on_ack_result.acked_segments_count > 0 {
+            // An RTO rewinds last_sent_seq_nr to the retransmitted segment. If the ACK covers
+            // more than what was re-sent since, catch up: everything below SND.UNA was sent.
+            // Otherwise a pending FIN waits forever for data that looks unsent.
+            let acked_up_to = self.user_tx_segments.snd_una() - 1;
+            if self.last_sent_seq_nr < acked_up_to {
+                self.last_sent_seq_nr = acked_up_to;
+            }
+
             // Cleanup user side of TX queue, remove the ACKed bytes from the front of it,
             // and notify the writer.
             {
